@@ -182,7 +182,21 @@ def build(S):
             if p.outcome == 'raise':
                 exc = p.value
                 if exc.cls == 'AssertionError' and (present.get('chargefile') or present.get('dumppath')):
-                    continue            # documented asserts on the lengths of the charge / dump data
+                    # documented asserts on the lengths of the charge / dump data: they may fire only when two of the lengths involved differ
+                    lens, stack, seen = [], list(p.pc), set()
+                    while stack:
+                        t = stack.pop()
+                        if t.get_id() in seen:
+                            continue
+                        seen.add(t.get_id())
+                        if z3.is_app(t) and t.decl().name().endswith('len_obj') and not any(z3.eq(t, x) for x in lens):
+                            lens.append(t)
+                        stack.extend(t.children())
+                    if len(lens) < 2:
+                        raise OutOfSubset("AssertionError on a path that compares no two lengths")
+                    S.add(I, "%s/length-assert-fires-only-on-a-length-mismatch#%d" % (tag, n), p.pc, z3.Not(z3.And(*[lens[0] == x for x in lens[1:]])),
+                          clause='every documented option reaches the operation it names')
+                    continue
                 S.add(I, "%s/does-not-raise#%d" % (tag, n), p.pc, z3.BoolVal(False),
                       replay=(lambda model: {'kind': 'cli', 'input': dict(pair='swap-element', opts=dict(find=True, replace=True, framework_element='C'), infmt='cif', outfmt='lmpdat', seed=99, rng=1),
                                              'key': 'cli-framework-element', 'what': 'the command line raises %s with --framework-element' % exc.cls}) if present.get('framework_element') else None,
